@@ -28,6 +28,9 @@ pub enum Ret {
     /// a delegating handler: it evaluates this program on a fresh context and returns the outcome
     /// as its own (the value, or the very Err the nested evaluation produced)
     Delegate(Prog, CtxSpec),
+    /// a handler that ALWAYS fails (returns Err) - a permanent fault rather than one injected at an
+    /// invocation index, so that it means the same in a concurrent run and in its sequential replays
+    Fail,
 }
 
 #[derive(Clone, PartialEq, Eq, Hash, Debug, Serialize, Deserialize)]
